@@ -118,6 +118,44 @@ theorem soundness (L : Lawful o G) {H : TagHash} (h32 : Len32 H) (tree : Tree) (
     Collision H ∨ TweakAlias o H xb (root H tree) q :=
   soundness_aux L h32 tree xb hxb htree q par s' c' hs' hq hc
 
+/-- T1v/T3v (`check_output_pubkey` is leaf-version-agnostic): for EVERY leaf version `v` (any integer the
+    caller writes; the library commits to `v & 0xFE`, so all 128 even bytes — 0xC0, 0xC2, 0x50, … — arise):
+    (completeness) the control block `input_script_sig` builds for that leaf is `(parity + (v & 0xFE)) ‖ x ‖ ∅`
+    and it verifies; (soundness) whatever `(s', c')` verifies against that output key carries exactly those
+    version bits and that script, up to a collision / tweak alias.  No version is compared with a constant
+    anywhere in the check: only the EXECUTION of the leaf is the engine's to gate by version. -/
+theorem every_leaf_version (L : Lawful o G) (hp : o.p ≤ 2 ^ 256) {H : TagHash} (h32 : Len32 H)
+    (sec : Bytes) (v : Nat) (s : Bytes) (P : α) (t : Int) (hs : s.length < 2 ^ 64)
+    (hP : pointFromOctets o sec = .ok P)
+    (ht : tapTweak o H (xOnly sec) (root H (.leaf v s)) = .ok t)
+    (hQ : L.abs (tweakPoint o P t) ≠ 0) :
+    (∃ par, par < 2 ∧
+      inputScriptSig o H (some sec) (.leaf v s) 0 = .ok (s, controlBlock par (v &&& LEAF_MASK) (xOnly sec) []) ∧
+      checkOutputPubkey o H (outKey o (tweakPoint o P t)).1 s
+        (controlBlock par (v &&& LEAF_MASK) (xOnly sec) []) = .ok true) ∧
+    (∀ s' c', s'.length < 2 ^ 64 →
+      checkOutputPubkey o H (outKey o (tweakPoint o P t)).1 s' c' = .ok true →
+      (s' = s ∧ c' = controlBlock (outKey o (tweakPoint o P t)).2 (v &&& LEAF_MASK) (xOnly sec) []) ∨
+      Collision H ∨ TweakAlias o H (xOnly sec) (root H (.leaf v s)) (outKey o (tweakPoint o P t)).1) := by
+  constructor
+  · obtain ⟨s1, c1, h1, h2⟩ :=
+      (completeness L hp h32 sec (.leaf v s) P t (Nat.zero_le _) hP ht hQ).2 0 (by rw [leaves_leaf]; simp)
+    obtain ⟨e1, par, hpar, e2⟩ := iss_leaf sec v s s1 c1 h1
+    subst e1 e2
+    exact ⟨par, hpar, h1, h2⟩
+  · intro s' c' hs' hc
+    obtain ⟨-, -, hxl⟩ := pointFromOctets_spec L sec P hP
+    have hq : tweakedPubkey o H (2 :: xOnly sec) (root H (.leaf v s)) = .ok (outKey o (tweakPoint o P t)) := by
+      rw [spelling_independent L sec _ P t hP ht hQ]; exact tweakedPubkey_ok sec _ P t hP ht
+    rcases soundness L h32 (.leaf v s) (xOnly sec) hxl (by simp [Tree.scripts]; exact hs) _ _ s' c' hs' hq hc with
+      ⟨lf, hlf, e1, e2⟩ | h | h
+    · left
+      rw [leaves_leaf, List.mem_singleton] at hlf
+      subst hlf
+      exact ⟨e1, e2⟩
+    · exact Or.inr (Or.inl h)
+    · exact Or.inr (Or.inr h)
+
 /-- T3m (merkle soundness alone): a (version, script, path) that folds to the root of a tree is one of
     the tree's own leaves with its own path, or a collision is in hand. -/
 theorem merkle_soundness {H : TagHash} (h32 : Len32 H) (t : Tree) (v : Nat) (s path : Bytes) (m : Nat)
